@@ -139,7 +139,7 @@ Print Assumptions C14_partial_coarse_fragment.
 From CGV Require Import Reader.ReaderImpl Reader.Grammar Reader.Lin Reader.ReaderCheck
      Resolve.GraphOps Resolve.Pipeline Resolve.CopyProofs
      Frag.NDict Frag.StripImpl Frag.FragText Hydro.Hydrogens Hydro.Fragments
-     Dialect.MachineAnnot Dialect.BaseAnnot Dialect.FragAnnot Dialect.CopyAnnot.
+     Hydro.SquashDefs Dialect.MachineAnnot Dialect.BaseAnnot Dialect.FragAnnot Dialect.CopyAnnot Dialect.TemplateAnnot.
 Open Scope Z_scope.
 
 (** ---- base graph ---- *)
@@ -191,6 +191,15 @@ Theorem C14_template_carries_annotation : forall d g i a n key v,
   NoDup (map fst d) -> In (i, a) d -> gfind i g = Some n -> NoDup (map fst a) -> In (key, v) a ->
   exists n', gfind i (set_attr_dicts g d) = Some n' /\ aget key (na n') = Some v.
 Proof. exact template_carries_annotation. Qed.
+(** ... and through the WHOLE post-processing of read_fragment_smiles (model Hydro/Fragments.read_fragment_post:
+    defaults, set_node_attributes, atom names, the `z` trick, pysmiles.remove_explicit_hydrogens, E/Z classes):
+    the annotated atom is never removed and keeps the parsed value under every key those steps do not write *)
+Theorem C14_template_annotation : forall g0 fragname bonding ez attributes g i a key v n0,
+  read_fragment_post g0 fragname bonding ez attributes = Ok g ->
+  NoDup (node_keys g0) -> NoDup (map fst attributes) -> In (i, a) attributes -> NoDup (map fst a) ->
+  gfind i g0 = Some n0 -> In (key, v) a -> ~ In key written_keys ->
+  node_get g i key = Some v.
+Proof. exact template_annotation_post. Qed.
 (** resolve_disconnected_molecule (model GraphOps.resolve_disconnected): the coarse node [mn] stands at ANY
     position of the coarse graph - so this is every coarse node that uses the fragment, every reuse count -
     and at the end of the loop each template atom has its copy for that coarse node, recording the coarse key
@@ -202,6 +211,19 @@ Theorem C14_fragment_annotation_on_every_copy : forall fd pre mn post fv name fr
     aget (S "fragid") a2 = Some (VList [VInt (nk mn)]) /\
     forall key, kept_key key -> aget key a2 = aget key (na n).
 Proof. exact every_copy_carries_template. Qed.
+(** the later steps of resolve(): edges_from_bonding_descrpt (model GraphOps.bonding_step) keeps every key but
+    hcount on every node; sort_nodes_by_attr (the resolver component's sort_graph) carries every dictionary
+    along the sorting permutation *)
+Theorem C14_bonding_keeps_annotation : forall legacy all_atom meta mol fgs mol' fgs',
+  bonding_step legacy all_atom meta mol fgs = Ok (mol', fgs') ->
+  forall k, has_node mol k = true -> has_node mol' k = true /\
+    forall key, key <> S "hcount" -> node_get mol' k key = node_get mol k key.
+Proof. exact bonding_keeps_annotation. Qed.
+Theorem C14_sort_keeps_annotation : forall g h, wf_graph g -> map fst (get_node_attributes g (S "fragid")) = node_keys g ->
+  sort_nodes_by_attr g = Ok h ->
+  exists m, sort_mapping g = Ok m /\
+    forall k key, In k (node_keys g) -> key <> S "ez_isomer_atoms" -> node_get h (map_get m k) key = node_get g k key.
+Proof. exact sort_keeps_annotation. Qed.
 (** rebuild_h_atoms' inheritance loop (model Hydrogens.inherit_step): no key an atom carries is overwritten *)
 Theorem C14_hydrogens_do_not_overwrite : forall copy_attrs g k n anchor rest m,
   gfind k g = Some n -> wants_inherit (na n) = true ->
@@ -224,5 +246,8 @@ Print Assumptions C14_base_annotation_stays.
 Print Assumptions C14_base_annotation_on_coarse_graph.
 Print Assumptions C14_strip_annotation_reaches_attributes.
 Print Assumptions C14_template_carries_annotation.
+Print Assumptions C14_template_annotation.
+Print Assumptions C14_bonding_keeps_annotation.
+Print Assumptions C14_sort_keeps_annotation.
 Print Assumptions C14_fragment_annotation_on_every_copy.
 Print Assumptions C14_hydrogens_do_not_overwrite.
